@@ -29,7 +29,8 @@
 (***************************************************************************)
 EXTENDS DeferStream
 
-CONSTANTS MaxD, Locked, AllGroups
+CONSTANTS MaxD, Locked, AllGroups,
+          CanDisconnect  \* TRUE: the environment may take the client away while the walk is running
 
 VARIABLES
   n,           \* number of defer descriptors
@@ -45,9 +46,11 @@ VARIABLES
   staged,      \* [1..n -> frame]  the frame a group rendered in Begin
   frames,      \* flushed frames
   delivered,   \* sequence of fragment ids whose data reached the client (0 = primary data)
-  phase        \* "init" | "walk" | "complete"
+  phase,       \* "init" | "walk" | "complete"
+  gone,        \* the client disconnected: request context cancelled, every writer call fails
+  cutLen       \* number of frames delivered when it happened
 
-vars == <<n, parent, anchor, outcome, grp, st, live, lock, outstanding, buf, staged, frames, delivered, phase>>
+vars == <<n, parent, anchor, outcome, grp, st, live, lock, outstanding, buf, staged, frames, delivered, phase, gone, cutLen>>
 
 Ids == 1..n
 Ch(p) == {i \in Ids : parent[i] = p}
@@ -70,8 +73,10 @@ Startable(t, liveSet) ==
 
 RECURSIVE Joined(_, _)
 Joined(t, liveSet) ==
-  CASE t.k = "S" -> t.g \notin liveSet \/ st[t.g] = "done"
-    [] t.k = "Q" -> LET p == t.c[1].g IN p \notin liveSet \/ (st[p] = "done" /\ Joined(t.c[2], live[p]))
+  \* after a disconnect a Sequence returns the parent's error without starting the children; a Single that was
+  \* never started stays idle
+  CASE t.k = "S" -> t.g \notin liveSet \/ st[t.g] = "done" \/ (gone /\ st[t.g] = "idle")
+    [] t.k = "Q" -> LET p == t.c[1].g IN p \notin liveSet \/ (gone /\ st[p] = "idle") \/ (st[p] = "done" /\ Joined(t.c[2], live[p]))
     [] t.k = "P" -> \A i \in DOMAIN t.c : Joined(t.c[i], liveSet)
     [] OTHER -> TRUE
 
@@ -93,6 +98,8 @@ Init ==
   /\ frames = <<>>
   /\ delivered = <<>>
   /\ phase = "init"
+  /\ gone = FALSE
+  /\ cutLen = 0
 
 Frame(pend, inc, compl, hn) == [ok |-> TRUE, pending |-> pend, inc |-> inc, completed |-> compl, hasNext |-> hn]
 
@@ -105,22 +112,22 @@ Initial ==
        /\ outstanding' = Cardinality(top)
   /\ delivered' = <<0>>
   /\ phase' = "walk"
-  /\ UNCHANGED <<n, parent, anchor, outcome, grp, st, lock, buf, staged>>
+  /\ UNCHANGED <<n, parent, anchor, outcome, grp, st, lock, buf, staged, gone, cutLen>>
 
 StartFetch(g) ==
-  /\ phase = "walk"
+  /\ phase = "walk" /\ ~gone
   /\ g \in Startable(Tree, live[0])
   /\ st' = [st EXCEPT ![g] = "fetching"]
-  /\ UNCHANGED <<n, parent, anchor, outcome, grp, live, lock, outstanding, buf, staged, frames, delivered, phase>>
+  /\ UNCHANGED <<n, parent, anchor, outcome, grp, live, lock, outstanding, buf, staged, frames, delivered, phase, gone, cutLen>>
 
 FetchDone(g) ==
   /\ st[g] = "fetching"
   /\ st' = [st EXCEPT ![g] = "fetched"]
-  /\ UNCHANGED <<n, parent, anchor, outcome, grp, live, lock, outstanding, buf, staged, frames, delivered, phase>>
+  /\ UNCHANGED <<n, parent, anchor, outcome, grp, live, lock, outstanding, buf, staged, frames, delivered, phase, gone, cutLen>>
 
 \* ResolveDeferBatch / ResolveDeferError: counter, frame content
 Begin(g) ==
-  /\ st[g] = "fetched"
+  /\ st[g] = "fetched" /\ ~gone
   /\ IF Locked THEN lock = 0 /\ lock' = g ELSE UNCHANGED lock
   /\ LET kids == IF outcome[g] = "hard" THEN {} ELSE {c \in Ch(g) : anchor[c]}
          out  == outstanding + Cardinality(kids) - 1
@@ -130,28 +137,42 @@ Begin(g) ==
               Frame(SetToSeq(kids), IF outcome[g] = "ok" THEN <<g>> ELSE <<>>, <<g>>, out # 0)]
   /\ buf' = Append(buf, g)
   /\ st' = [st EXCEPT ![g] = "writing"]
-  /\ UNCHANGED <<n, parent, anchor, outcome, grp, frames, delivered, phase>>
+  /\ UNCHANGED <<n, parent, anchor, outcome, grp, frames, delivered, phase, gone, cutLen>>
 
 \* the chunk that is committed is whatever sits in the writer
 Flush(g) ==
   /\ st[g] = "writing"
-  /\ frames' = Append(frames,
-        IF buf = <<g>> THEN staged[g]
-        ELSE [ok |-> FALSE, pending |-> <<>>, inc |-> <<>>, completed |-> <<>>, hasNext |-> TRUE])
-  /\ delivered' = IF outcome[g] = "ok" THEN Append(delivered, g) ELSE delivered
+  /\ frames' = IF gone THEN frames   \* Flush fails, the frame is lost
+                ELSE Append(frames,
+                       IF buf = <<g>> THEN staged[g]
+                       ELSE [ok |-> FALSE, pending |-> <<>>, inc |-> <<>>, completed |-> <<>>, hasNext |-> TRUE])
+  /\ delivered' = IF outcome[g] = "ok" /\ ~gone THEN Append(delivered, g) ELSE delivered
   /\ buf' = <<>>
   /\ IF Locked THEN lock' = 0 ELSE UNCHANGED lock
   /\ st' = [st EXCEPT ![g] = "done"]
-  /\ UNCHANGED <<n, parent, anchor, outcome, grp, live, outstanding, staged, phase>>
+  /\ UNCHANGED <<n, parent, anchor, outcome, grp, live, outstanding, staged, phase, gone, cutLen>>
+
+\* environment: the client goes away while the deferred part is running
+Disconnect ==
+  /\ CanDisconnect /\ phase = "walk" /\ ~gone
+  /\ gone' = TRUE /\ cutLen' = Len(frames)
+  /\ UNCHANGED <<n, parent, anchor, outcome, grp, st, live, lock, outstanding, buf, staged, frames, delivered, phase>>
+
+\* a group whose fetch ended with the cancelled context (or that had not rendered yet) gives up WITHOUT touching the writer
+Abort(g) ==
+  /\ gone /\ st[g] \in {"fetching", "fetched"}
+  /\ st' = [st EXCEPT ![g] = "done"]
+  /\ live' = [live EXCEPT ![g] = {}]
+  /\ UNCHANGED <<n, parent, anchor, outcome, grp, lock, outstanding, buf, staged, frames, delivered, phase, gone, cutLen>>
 
 Complete ==
   /\ phase = "walk"
   /\ Joined(Tree, live[0])
   /\ phase' = "complete"
-  /\ UNCHANGED <<n, parent, anchor, outcome, grp, st, live, lock, outstanding, buf, staged, frames, delivered>>
+  /\ UNCHANGED <<n, parent, anchor, outcome, grp, st, live, lock, outstanding, buf, staged, frames, delivered, gone, cutLen>>
 
-Group(g) == StartFetch(g) \/ FetchDone(g) \/ Begin(g) \/ Flush(g)
-Next == Initial \/ Complete \/ \E g \in Ids : Group(g)
+Group(g) == StartFetch(g) \/ FetchDone(g) \/ Begin(g) \/ Flush(g) \/ Abort(g)
+Next == Initial \/ Complete \/ Disconnect \/ \E g \in Ids : Group(g)
 Done == phase = "complete" /\ UNCHANGED vars
 
 Spec == Init /\ [][Next \/ Done]_vars /\ WF_vars(Next)
@@ -162,7 +183,8 @@ TypeOK ==
   /\ st \in [1..n -> {"idle", "fetching", "fetched", "writing", "done"}]
   /\ lock \in 0..n /\ outstanding \in Int /\ phase \in {"init", "walk", "complete"}
 
-Verdict == IF phase = "complete" THEN FinalVerdict(frames) ELSE PrefixVerdict(frames)
+\* after a disconnect only the safety part of the protocol can be demanded of the delivered prefix
+Verdict == IF phase = "complete" /\ ~gone THEN FinalVerdict(frames) ELSE PrefixVerdict(frames)
 
 \* the clauses of the property, judged by the acceptor on the frames emitted so far
 FramesAtomic              == "FramesAtomic" \notin Verdict
@@ -172,22 +194,25 @@ HasNextFalseExactlyLast   == "HasNextFalseExactlyLast" \notin Verdict
 
 \* meaning of the counter: announced-but-not-completed, as soon as a frame is rendered
 Open == LET s == StreamRun(StreamInit, frames) IN s.announced \ s.completed
-CounterIsOpen == (phase # "init" /\ buf = <<>>) => outstanding = Cardinality(Open)
+CounterIsOpen == (phase # "init" /\ buf = <<>> /\ ~gone) => outstanding = Cardinality(Open)
 CounterNonNegative == outstanding >= 0
 \* the frame that makes the counter 0 is the last one
-ZeroIsLast == (phase # "init" /\ buf = <<>> /\ outstanding = 0) => \A g \in Ids : st[g] \in {"idle", "done"} /\ Startable(Tree, live[0]) = {}
+ZeroIsLast == (phase # "init" /\ buf = <<>> /\ outstanding = 0 /\ ~gone) => \A g \in Ids : st[g] \in {"idle", "done"} /\ Startable(Tree, live[0]) = {}
 
 \* model-level reconstruction: every fragment whose chain of anchors is alive and whose ancestors
 \* rendered is delivered exactly once, nothing else is (what the non-deferred response contains)
 RECURSIVE Reach(_)
 Reach(i) == i = 0 \/ (anchor[i] /\ Reach(parent[i]) /\ (parent[i] = 0 \/ outcome[parent[i]] # "hard"))
 Reconstructs ==
-  phase = "complete" =>
+  (phase = "complete" /\ ~gone) =>
     /\ NoDup(delivered)
     /\ SeqRange(delivered) = {0} \cup {i \in Ids : Reach(i) /\ outcome[i] = "ok"}
 
 \* a dead fragment is never announced nor fetched
 DeadNeverRuns == \A i \in Ids : ~Reach(i) => st[i] = "idle"
+
+\* nothing reaches the client after it disconnected
+NoFrameAfterDisconnect == gone => Len(frames) = cutLen
 
 Terminates == <>(phase = "complete")
 =============================================================================
